@@ -140,6 +140,8 @@ def semantic_key(mode, name, case, v, msg, ex):
     if mode == "c37":
         if failed and "scalar_subquery_to_join" in msg and "which would be ambiguous" in msg and "(<subquery>)" in pt:
             return "scalar subquery: consumed plan fails in scalar_subquery_to_join (qualified/unqualified field ambiguous)"
+        if failed and "scalar_subquery_to_join" in msg and "unique expression names" in msg and "outer_ref(" in pt:
+            return "correlated scalar subquery: consumed plan fails in scalar_subquery_to_join (duplicate expression names)"
         if failed and "decorrelate_predicate_subquery" in msg and "unique expression names" in msg and "outer_ref(" in pt:
             return "correlated subquery: consumed plan fails in decorrelate_predicate_subquery (duplicate expression names)"
         if failed and "type_coercion" in msg and re.search(r"Schema error: No field named (left|right)\.", msg) and "Join" in pt:
